@@ -2,9 +2,10 @@
 
     /venv/bin/python harness/pygen_selftest.py
 
-what must be refused is refused (fail closed), and two functions that together use every accepted construct translate
+what must be refused is refused (fail closed), and three functions that together use every accepted construct translate
 to the expected `do` blocks (`f`: dictionaries, strings, if/elif/else; `g`: loops, comprehensions, sets, integers,
-`raise`, `with`, log calls) and compute the same results in Python and in Lean on sampled inputs.  The meaning of the accepted constructs is checked elsewhere: the generated definitions of
+`raise`, `with`, log calls; `h`: a state monad with reading, failing and acting atoms, bare `return`) and compute the
+same results in Python and in Lean on sampled inputs.  The meaning of the accepted constructs is checked elsewhere: the generated definitions of
 /repo's functions are proved equal to hand models that the differential runs compare with the real code.
 """
 import ast
@@ -332,6 +333,104 @@ def differential2():
     return []
 
 
+ACCEPTED3_SRC = '''def h(x, n):
+    os.makedirs(os.path.dirname(x), exist_ok=True)
+    limit = cfg.get_numeric("limit", 3)
+    if peek() > n and not small(n):
+        return
+    with lock(x, limit) as held:
+        bump(n)
+        if x == "boom" or peek() == 7:
+            raise ValueError(f"bad {x}")
+        if digest(x) == "":
+            bump(100)
+        other(x, n)
+    bump(1)
+'''
+
+SPEC3 = pygen.Spec("h", [("x", "String"), ("n", "Int")], {"x": ("x", "str"), "n": ("n", "int")}, ret="unit",
+                   monad="StateT Int (Except Err)",
+                   calls={"peek()": ("peekM", "int", "reads"), "small(_1)": ("(decide ({1} < 2))", "bool", "pure", ["int"]),
+                          "bump(_1)": ("bumpM {1}", "unit", "action", ["int"]),
+                          "digest(_1)": ("(digestOf {1})", "Option Nat", "pure", ["str"]),
+                          "other(_1, _2)": ("otherM {1} {2}", "unit", "action", ["str", "int"])},
+                   atoms={"''": ("(none : Option Nat)", "Option Nat")}, type_defaults={"Option Nat": "none"},
+                   raises=[("ValueError", "bad {}", "Err.valueError")], ignored_calls={"os.makedirs"},
+                   transparent_with={"lock"},
+                   prelude=["def peekM : StateT Int (Except Err) Int := get",
+                            "def bumpM (k : Int) : StateT Int (Except Err) Unit := modify (· + k)",
+                            "def digestOf (x : String) : Option Nat := if x == \"void\" then none else some x.length",
+                            "def otherM (x : String) (n : Int) : StateT Int (Except Err) Unit :=",
+                            "  if x == \"other\" then throw Err.keyError else modify (· * 2 + n)"])
+
+ACCEPTED3_LEAN = ['def h (x : String) (n : Int) : StateT Int (Except Err) (Unit) := do',
+                  '  if ((decide ((← peekM) > n)) && (!(decide (n < 2)))) then',
+                  '    return ()',
+                  '  bumpM n',
+                  '  if ((x == "boom") || ((← peekM) == (7 : Int))) then',
+                  '    throw Err.valueError',
+                  '  if ((digestOf x) == (none : Option Nat)) then',
+                  '    bumpM (100 : Int)',
+                  '  otherM x n',
+                  '  bumpM (1 : Int)',
+                  '  return ()']
+
+
+def differential3():
+    """a function with effects (state monad: reads, actions, raise, `with`, bare return, dropped calls) in Python and
+    its translation in Lean from the same 48 start states / inputs"""
+    import contextlib
+    import subprocess
+    import tempfile
+    import types
+    import vlib
+    st = [0]
+
+    def other(x, n):
+        if x == "other":
+            raise KeyError(x)
+        st[0] = st[0] * 2 + n
+    ns = {"os": types.SimpleNamespace(makedirs=lambda *a, **k: None, path=types.SimpleNamespace(dirname=lambda p: p)),
+          "cfg": types.SimpleNamespace(get_numeric=lambda k, d: d), "lock": lambda *a: contextlib.nullcontext(),
+          "peek": lambda: st[0], "small": lambda n: n < 2, "digest": lambda x: "" if x == "void" else "h" + x,
+          "bump": lambda k: st.__setitem__(0, st[0] + k), "other": other}
+    exec(ACCEPTED3_SRC, ns)
+    tree = ast.parse(ACCEPTED3_SRC)
+    lean = pygen.translate(pygen.find_function(tree, "h"), SPEC3, {})
+    cases, want = [], []
+    for x in ("a", "boom", "void", "other"):
+        for n in (0, 1, 3, 5):
+            for s0 in (0, 4, 6):
+                st[0] = s0
+                try:
+                    ns["h"](x, n)
+                    want.append(f"ok {st[0]}")
+                except ValueError:
+                    want.append("ValueError")
+                except KeyError:
+                    want.append("KeyError")
+                cases.append(f"(h {pygen.lean_str(x)} ({n})).run ({s0})")
+    src = ["import I2N.Model.Tunnel", "open I2N.Tunnel"] + lean + [
+        "def shw (r : Except Err (Unit × Int)) : String := match r with",
+        "  | .ok (_, s) => s!\"ok {s}\" | .error .valueError => \"ValueError\" | .error .keyError => \"KeyError\"",
+        "  | .error _ => \"other\"",
+        "#eval IO.println (\"\\n\".intercalate [" + ", ".join(f"shw ({c})" for c in cases) + "])"]
+    fd, tmp = tempfile.mkstemp(suffix=".lean", prefix="pygen_selftest_", dir=vlib.LEAN)
+    try:
+        with os.fdopen(fd, "w") as fh:
+            fh.write("\n".join(src) + "\n")
+        p = subprocess.run(["lake", "env", "lean", tmp], cwd=vlib.LEAN, stdout=subprocess.PIPE, stderr=subprocess.STDOUT,
+                           text=True, timeout=600)
+    finally:
+        os.unlink(tmp)
+    got = [l for l in p.stdout.splitlines() if l]
+    if p.returncode != 0 or got != want:
+        diff = [f"{c}: python {w!r}, lean {g!r}" for c, w, g in zip(cases, want, got) if w != g][:5]
+        return [f"differential run 3: lean exit {p.returncode}, {len(got)} answers for {len(want)} cases; " + "; ".join(diff)
+                + (p.stdout[-600:] if p.returncode else "")]
+    return []
+
+
 def differential():
     """run the accepted function in Python and its translation in Lean on the same 48 inputs (evaluation order, KeyError)"""
     import subprocess
@@ -371,7 +470,7 @@ def differential():
 
 
 def main():
-    bad = differential() + differential2() if "--no-lean" not in sys.argv else []
+    bad = differential() + differential2() + differential3() if "--no-lean" not in sys.argv else []
     for what, src in REFUSED.items():
         try:
             tree = ast.parse(src)
@@ -388,13 +487,19 @@ def main():
     got2 = got2[:got2.index("", 2)]
     if got2 != ACCEPTED2_LEAN:
         bad.append("unexpected translation of g:\n" + "\n".join(got2))
+    tree = ast.parse(ACCEPTED3_SRC)
+    got3 = pygen.translate(pygen.find_function(tree, "h"), SPEC3, {})
+    got3 = got3[len(SPEC3.prelude) + 1:]
+    got3 = got3[:got3.index("")]
+    if got3 != ACCEPTED3_LEAN:
+        bad.append("unexpected translation of h:\n" + "\n".join(got3))
     tree = ast.parse(ACCEPTED_SRC)
     got = pygen.translate(pygen.find_function(tree, "f"), SPEC, pygen.module_constants(tree))
     got = got[:got.index("")]
     if got != ACCEPTED_LEAN:
         bad.append("unexpected translation:\n" + "\n".join(got))
-    print(f"pygen selftest: {len(REFUSED)} refusals, 2 translations" +
-          (", 48 + 150 inputs through Python and the generated Lean" if "--no-lean" not in sys.argv else "") +
+    print(f"pygen selftest: {len(REFUSED)} refusals, 3 translations" +
+          (", 48 + 150 + 48 inputs through Python and the generated Lean" if "--no-lean" not in sys.argv else "") +
           f" checked, {len(bad)} problem(s)")
     for b in bad:
         print("  " + b)
